@@ -166,6 +166,15 @@ fn main() {
                 Some("miri-mt") => sanit::miri_stage_with(&ctx, "dbgmt", 16, ctx.scale(48), 3),
                 Some("tsan") => sanit::tsan_stage(&ctx, 1),
                 Some("asan") => sanit::asan_stage(&ctx),
+                Some("dark") => {
+                    for (v, k) in job::Job::dark_count_cells() {
+                        let t = std::time::Instant::now();
+                        let r = craft::payload_for_dark_count(v, 0, 2, k, 7, 12_000);
+                        let n = 17 + 4 * v;
+                        println!("v{v} k{k} ({:.1}% of {}): {} in {:.2}s", 100.0 * k as f64 / (n * n) as f64, n * n, r.is_some(), t.elapsed().as_secs_f64());
+                    }
+                    sanit::StageResult::empty()
+                }
                 Some("fuzz") => {
                     fuzz::stage(&ctx, args.get(3).map(|s| s.as_str()).unwrap_or("C06"), args.get(4).and_then(|s| s.parse().ok()).unwrap_or(30), &mut st, &mut extra);
                     sanit::StageResult::empty()
@@ -183,6 +192,10 @@ fn main() {
         }
         "c19-child" => {
             std::process::exit(props::c19::child_main(args.get(2).map(|s| s.as_str()).unwrap_or(""), args.get(3).map(|s| s.as_str()).unwrap_or("")));
+        }
+        "c14-child" => {
+            let g = |i: usize| args.get(i).and_then(|s| s.parse::<u64>().ok()).unwrap_or(0);
+            std::process::exit(props::c14::child_main(g(2), g(3) as usize, g(4) as usize));
         }
         "c10-child" => {
             std::process::exit(props::c10::child_main(args.get(2).map(|s| s.as_str()).unwrap_or("")));
